@@ -170,7 +170,10 @@ def run(ctx):
     worlds, runs = simcheck.run_sim_property(ctx, ["C08"], mon_c08,
                                              "a row of the CSV trace or the end-of-run summary disagrees with what happened in the run")
     # ---- the project's own reader must accept every trace and reconstruct the run
-    idx = [i for i, r in enumerate(runs) if r["status"] == "ended" and r["rows"]]
+    import simgen
+    # closed-loop worlds: the reader is known to reject them (F9), replayed separately below
+    idx = [i for i, r in enumerate(runs) if r["status"] == "ended" and r["rows"]
+           and "closed_loop" not in simgen.signature(worlds[i])]
     res = core.run_impl("csvread.py", {"traces": [runs[i]["rows"] for i in idx]}, timeout=600)["results"]
     rejected = 0
     recon_bad = 0
